@@ -133,7 +133,8 @@ theorem varGN (e : BEnv) (Γ : Ctx) (cfg : SerCfg) (M : NsMap) (ns : Option Str)
       itemGen e Γ cfg var ns (if var.listElement then f else f + 1) y = .ok evs ∧
       SubW M (isDatatype Γ) evs (treeSax (tr y))) :
     ∃ evs, genField e Γ cfg (f + 1) ns (var, x) = .ok evs ∧
-      BodyW M (isDatatype Γ) evs (treesSax (chunkTrees M tr var x)) := by
+      BodyW M (isDatatype Γ) evs (treesSax (chunkTrees M tr var x)) ∧
+      (chunkTrees M tr var x = [] → evs = []) := by
   obtain ⟨parts, hparts, hall⟩ := mapM_exists
     (itemGen e Γ cfg var ns (if var.listElement then f else f + 1))
     (fun y evs => SubW M (isDatatype Γ) evs (treeSax (tr y))) (itemsN var x) hitems
@@ -144,11 +145,17 @@ theorem varGN (e : BEnv) (Γ : Ctx) (cfg : SerCfg) (M : NsMap) (ns : Option Str)
     exact BodyW_forall₂ (fun y => treeSax (tr y)) _ parts (hall.mono (fun _ _ h => h.body))
   cases hw : var.wrapperQName with
   | none =>
-    exact ⟨parts.flatten, by simp [genField, hinner, hw, bind, Except.bind, pure, Except.pure],
-      by simpa [chunkTrees, hw] using hbody⟩
+    refine ⟨parts.flatten, by simp [genField, hinner, hw, bind, Except.bind, pure, Except.pure],
+      by simpa [chunkTrees, hw] using hbody, ?_⟩
+    intro hnil
+    have hitems0 : itemsN var x = [] := by simpa [chunkTrees, hw] using hnil
+    rw [hitems0] at hparts
+    cases hparts
+    rfl
   | some w =>
     refine ⟨[Ev.start w] ++ parts.flatten ++ [Ev.end w],
-      by simp [genField, hinner, hw, bind, Except.bind, pure, Except.pure], ?_⟩
+      by simp [genField, hinner, hw, bind, Except.bind, pure, Except.pure], ?_,
+      by simp [chunkTrees, hw]⟩
     have := SubW_elemN (M := M) (isDt := isDatatype Γ) w [] [] false parts.flatten _
       (by simpa [nilAttr] using AttrsW_nil M (isDatatype Γ)) (by simp) hbody
     simpa [chunkTrees, hw, treeSax, treesSax, nilAttr] using this.body
